@@ -1454,6 +1454,89 @@ int streamPreSieve(std::istream& in)
   return 0;
 }
 
+// --------------------------------------------------------------------------------------------
+// capi: corners of the C error contract that the store / nth / print streams do not reach
+//   op: capi <case> <a> <b> <type>
+//   cases: gp (generate_primes a b, size pointer given), gpnull (size pointer NULL), gn (generate_n_primes n=a start=b),
+//          count (primesieve_count_primes a b), nth (primesieve_nth_prime n=a start=b), free0 (primesieve_free(NULL))
+//   observation: NULL/non-NULL, *size, errno == EDOM, value; oracle = C++ API in the same process + contract
+// --------------------------------------------------------------------------------------------
+int streamCApi(std::istream& in)
+{
+  std::string line;
+  while (std::getline(in, line))
+  {
+    auto t = split(line);
+    if (t.empty() || t[0][0] == '#')
+      continue;
+    if (t[0] != "capi" || t.size() < 5) { std::cerr << "bad op: " << line << "\n"; return 2; }
+    uint64_t a = u64(t[2]), b = u64(t[3]);
+    int type = atoi(t[4].c_str());
+    bool validType = type >= 0 && type <= UINT64_PRIMES;
+    std::ostringstream o;
+    std::string bad;
+    errno = 0;
+    if (t[1] == "gp" || t[1] == "gpnull")
+    {
+      size_t size = 12345;
+      void* p = primesieve_generate_primes(a, b, t[1] == "gp" ? &size : nullptr, type);
+      bool edom = errno == EDOM;
+      o << "ptr=" << (p ? 1 : 0) << " size=" << (t[1] == "gp" ? (long long) size : -1) << " edom=" << edom;
+      // the C++ counterpart with a 64-bit element type tells how many primes there are
+      std::vector<uint64_t> ref;
+      bool refErr = false;
+      try { primesieve::generate_primes(a, b, &ref); } catch (const std::exception&) { refErr = true; }
+      if (!validType) { if (p || !edom || (t[1] == "gp" && size != 0)) bad = "invalid type code must give NULL, *size = 0, errno = EDOM"; }
+      else if (type == UINT64_PRIMES || type == ULONG_PRIMES || type == ULONGLONG_PRIMES)
+      {
+        if (refErr != edom) bad = "error status differs from the C++ API";
+        else if (!edom)
+        {
+          if (t[1] == "gp" && size != ref.size()) bad = "*size differs from the C++ API";
+          if (ref.empty() && edom) bad = "empty result must not set EDOM";
+          if (p && !ref.empty() && memcmp(p, ref.data(), ref.size() * 8) != 0) bad = "array differs from the C++ API";
+        }
+        else if (p || (t[1] == "gp" && size != 0)) bad = "on error NULL and *size = 0 are required";
+      }
+      primesieve_free(p);
+    }
+    else if (t[1] == "gn")
+    {
+      void* p = primesieve_generate_n_primes(a, b, type);
+      bool edom = errno == EDOM;
+      o << "ptr=" << (p ? 1 : 0) << " edom=" << edom;
+      if (!validType) { if (p || !edom) bad = "invalid type code must give NULL and errno = EDOM"; }
+      else if (a == 0 && edom) bad = "n = 0 is an empty request, not an error";
+      primesieve_free(p);
+    }
+    else if (t[1] == "count")
+    {
+      uint64_t c = primesieve_count_primes(a, b);
+      bool edom = errno == EDOM;
+      uint64_t ref = primesieve::count_primes(a, b);
+      o << "v=" << c << " edom=" << edom;
+      if (c != ref || edom) bad = "differs from the C++ API / EDOM set on success";
+    }
+    else if (t[1] == "nth")
+    {
+      uint64_t v = primesieve_nth_prime((int64_t) a, b);
+      bool edom = errno == EDOM;
+      o << "v=" << v << " edom=" << edom;
+      bool refErr = false; uint64_t ref = 0;
+      try { ref = primesieve::nth_prime((int64_t) a, b); } catch (const std::exception&) { refErr = true; }
+      if (refErr ? !(v == PRIMESIEVE_ERROR && edom) : (v != ref || edom)) bad = "differs from the C++ API / error contract";
+    }
+    else if (t[1] == "free0")
+    {
+      primesieve_free(nullptr);
+      o << "ok";
+    }
+    else { std::cerr << "bad op: " << line << "\n"; return 2; }
+    std::cout << line << " => " << o.str() << (bad.empty() ? "" : " ORACLE-MISMATCH " + bad) << "\n";
+  }
+  return 0;
+}
+
 } // namespace
 
 int main(int argc, char** argv)
@@ -1495,6 +1578,8 @@ int main(int argc, char** argv)
     return streamWheel(in);
   if (stream == "presieve")
     return streamPreSieve(in);
+  if (stream == "capi")
+    return streamCApi(in);
   if (stream == "cross")
     return streamCross(in);
   if (stream == "cli")
